@@ -1,10 +1,12 @@
 package corecheck
 
 import (
+	"bytes"
 	"context"
 	"encoding/json"
 	"fmt"
 	"os"
+	"os/exec"
 	"path/filepath"
 	"strings"
 	"testing"
@@ -81,6 +83,86 @@ var oddScripts = [][2]string{
 	{"ecmascript", `throw {toString: function() { throw new Error("again"); }};`},
 	{"ecmascript", `_.bindings = null; return _.bindings;`},
 	{"ecmascript", `return new Proxy ? new Proxy({}, {ownKeys: function() { throw new Error("keys"); }}) : {};`},
+	// values that contain themselves, where a bindings object is expected
+	{"ecmascript", `var a = {}; a.a = a; return [a];`},
+	{"ecmascript", `var a = []; a[0] = a; return a;`},
+	{"ecmascript", `var a = {}; a.a = a; _.out(a); _.out([a]); return _.bindings;`},
+	{"ecmascript", `var a = {}; a.a = a; throw a;`},
+}
+
+// fatalScripts turn an array that contains itself into a string.  The
+// ECMAScript engine the repository pins (goja) follows the cycle in native
+// code until the Go stack is exhausted, which no recover can stop: the
+// process dies.  That is known finding C07/script-stringifies-self-containing-array;
+// while it is listed, these scripts are not generated in-process (the
+// search has to go on) and TestC07Total shows the finding in a child
+// process instead.  Were the entry removed, they would be generated again
+// and the dying test process reported as a violation.
+var fatalScripts = [][2]string{
+	{"ecmascript", `var a = []; a[0] = a; throw a;`},
+	{"ecmascript", `var a = []; a[0] = a; return {s: String(a)};`},
+	{"ecmascript", `var a = [1]; a.push([a]); return {s: a.join("-")};`},
+}
+
+const fatalSignature = "C07/script-stringifies-self-containing-array"
+
+func init() {
+	if _, known := ev.IsKnown("C07", fatalSignature); !known {
+		oddScripts = append(oddScripts, fatalScripts...)
+	}
+}
+
+// TestC07FatalChild is the child process of the probe below.
+func TestC07FatalChild(t *testing.T) {
+	src := os.Getenv("VERIF_C07_FATAL_SCRIPT")
+	if src == "" {
+		t.Skip("only run as a child of TestC07Total")
+	}
+	spec := &core.Spec{Name: "fatal", Nodes: map[string]*core.Node{
+		"start": {ActionSource: &core.ActionSource{Interpreter: "ecmascript", Source: src},
+			Branches: &core.Branches{Branches: []*core.Branch{{Target: "there"}}}},
+		"there": {}}}
+	if err := spec.Compile(context.Background(), interpreters.Standard(), true); err != nil {
+		t.Fatalf("compile: %v", err)
+	}
+	ctx, cancel := context.WithTimeout(context.Background(), 5*time.Second)
+	defer cancel()
+	w, err := spec.Walk(ctx, &core.State{NodeName: "start", Bs: match.NewBindings()}, nil, nil, nil)
+	fmt.Printf("SURVIVED walked=%v err=%v\n", w != nil, err)
+}
+
+// probeFatal runs each fatal script in a child process and says how
+// many of them killed it.
+func probeFatal() (died []string, unclear []string) {
+	for _, s := range fatalScripts {
+		cmd := exec.Command(os.Args[0], "-test.run", "^TestC07FatalChild$", "-test.count", "1", "-test.v")
+		cmd.Env = append(os.Environ(), "VERIF_C07_FATAL_SCRIPT="+s[1], "VERIF_STATS=", "VERIF_REPLAY=")
+		var out bytes.Buffer
+		cmd.Stdout, cmd.Stderr = &out, &out
+		done := make(chan error, 1)
+		if err := cmd.Start(); err != nil {
+			unclear = append(unclear, s[1]+": "+err.Error())
+			continue
+		}
+		go func() { done <- cmd.Wait() }()
+		select {
+		case <-done:
+		case <-time.After(120 * time.Second):
+			cmd.Process.Kill()
+			<-done
+			unclear = append(unclear, s[1]+": child did not end")
+			continue
+		}
+		text := out.String()
+		switch {
+		case strings.Contains(text, "SURVIVED"):
+		case strings.Contains(text, "stack overflow") || strings.Contains(text, "fatal error:"):
+			died = append(died, s[1])
+		default:
+			unclear = append(unclear, s[1]+": "+ev.Trunc(text, 200))
+		}
+	}
+	return
 }
 
 const knotSource = `var bs = _.bindings; bs.knot = {}; bs.knot.self = bs.knot; bs.ring = [1]; bs.ring.push(bs.ring); return bs;`
@@ -133,6 +215,14 @@ func genTotal(t *rapid.T) TotalCase {
 	c.Node = rapid.SampledFrom(append(a.NodeNames(), "unknown", "error", "")).Draw(t, "at")
 	if c.KnotNode != "" && rapid.Bool().Draw(t, "atKnot") {
 		c.Node = c.KnotNode
+	}
+	if c.Load != "go" && rapid.IntRange(0, 3).Draw(t, "oddHere") == 0 {
+		// an odd script right where the machine is (the drawn mutations
+		// above seldom land on the node that runs)
+		if _, real := a.Nodes[c.Node]; real {
+			c.Muts = append(c.Muts, Mut{Kind: rapid.SampledFrom([]string{"oddScript", "oddScript", "oddGuardScript"}).Draw(t, "oddKind"),
+				Node: c.Node, I: rapid.IntRange(0, 599).Draw(t, "oddI")})
+		}
 	}
 	c.NilBs = rapid.IntRange(0, 4).Draw(t, "nilbs") == 0
 	if !c.NilBs {
@@ -666,9 +756,26 @@ func specSpins(a *sm.ASpec) bool {
 }
 
 func TestC07Total(t *testing.T) {
+	fatalProbe(t)
 	ev.Run(t, ev.Opts{Property: "C07", Name: "total", Quick: 15000, Thorough: 800000, Journal: true,
 		Rule: "spec documents (Go / JSON / YAML, structure-aware mutations: null nodes, branchings, branches, actions; wrong types; unknown targets, interpreters, syntaxes, branching types) x states (nil bindings, permanent keys, unknown node) x messages (incl. null) x control (nil, limit <= 0, breakpoints) x failing ECMAScript and native behaviours (throw, timeout, null, scalars, unserialisable emission, error with partial result) under a panic trap and watchdog; non-trivial = at least two failure dimensions combined"},
 		genTotal, checkTotal)
+}
+
+// fatalProbe reports the listed finding (see fatalScripts) if the tree
+// still has it.
+func fatalProbe(t *testing.T) {
+	f, known := ev.IsKnown("C07", fatalSignature)
+	if !known || ev.Replaying() || ev.Shard() != 0 || os.Getenv("VERIF_C07_FATAL_SCRIPT") != "" {
+		return
+	}
+	died, unclear := probeFatal()
+	for _, u := range unclear {
+		t.Logf("fatal-script probe inconclusive: %s", u)
+	}
+	if len(died) > 0 {
+		fmt.Printf("KNOWN-FINDING: property=C07 %s: %s [%d of %d listed scripts still kill the process, e.g. %s; they are excluded from generation]\n", f.Signature, f.What, len(died), len(fatalScripts), died[0])
+	}
 }
 
 func FuzzC07Total(f *testing.F) {
